@@ -161,6 +161,28 @@ def r3(chk, ctx):
                    message="the validator accepts a value the engine cannot run: " + why)
 
 
+def _key_tested(g, se, notify, sub):
+    """X['K'] is safe when a top-level `if ... or 'K' not in X: ...; return` (every path of its body leaves notify) dominates it"""
+    if not isinstance(sub, ast.Subscript):
+        return False
+    base, key = norm(sub.value), sub.slice.value
+    want = "'%s' not in %s" % (key, base)
+    st = sub
+    while st is not None and not isinstance(st, ast.stmt):
+        st = se.parent(st)
+    for s in notify.node.body:
+        if s.lineno >= st.lineno:
+            break
+        if isinstance(s, ast.If) and not s.orelse and s.body and isinstance(s.body[-1], ast.Return):
+            disj = [norm(v) for v in (s.test.values if isinstance(s.test, ast.BoolOp) and isinstance(s.test.op, ast.Or) else [s.test])]
+            if want in disj and g.dominates(g.node_of(s), g.node_of(st)):
+                # and the base is not rebound in between
+                rebinds = [d for d in name_defs(notify, base) if s.lineno < d.lineno < st.lineno] if base.isidentifier() else [1]
+                if not rebinds:
+                    return True
+    return False
+
+
 def r4(chk, ctx):
     p = ctx.protocol()
     proto_findings(chk, p, {"C18.R4"})
@@ -196,7 +218,7 @@ def r4(chk, ctx):
                     continue
                 if se.enclosing_func(x) is not notify:
                     continue
-                covered = in_try_with_handler(se, x, notify.node, ("Exception",))
+                covered = in_try_with_handler(se, x, notify.node, ("Exception",)) or _key_tested(g, se, notify, x)
                 # context["State"]/context["Execution"]["Id"] were just (re)written by notify/start_execution on this path
                 sinks.setdefault(sink, []).append((x, covered))
     guaranteed = {"context['State']", "context['Execution']", "context['Execution']['Id']"}
